@@ -131,7 +131,15 @@ func matchingExtensions(n Node, exts []*Statement, module, identifier string) ([
 	var matchingExtensions []*Statement
 	for _, ext := range exts {
 		names := strings.SplitN(ext.Keyword, ":", 2)
-		mod := FindModuleByPrefix(n, names[0])
+		// The prefix of an extension statement is one of the module the
+		// statement is written in, which is not always the module of n:
+		// the statements written on a uses are handed on to the copies of
+		// the nodes of the grouping, which another module may define.
+		ctx := n
+		if ext.ParentNode() != nil {
+			ctx = ext
+		}
+		mod := FindModuleByPrefix(ctx, names[0])
 		if mod == nil {
 			return nil, fmt.Errorf("matchingExtensions: module prefix %q not found", names[0])
 		}
